@@ -31,6 +31,7 @@ From Coq Require Import ZArith Bool Reals.
 From LF Require Import Render.Contours Render.ContoursSem Gen.MarchTables_gen Render.DCGrid2 Render.DCGrid2Sem.
 From LF Require Import Render.DCBoundary2.
 From LF Require Render.QuadTree Render.QuadTreeSem.
+From LF Require Gen.LeafsManifold_gen Gen.ManifoldTables_gen Render.LeafsAgree.
 Import ListNotations.
 
 (* nothing is lost, duplicated or invented: the consecutive pairs of the returned polylines
@@ -253,6 +254,16 @@ Theorem C10_boundary_clear_needed :
   contour_walk t = [(([0]%Z, 0%Z), ([2]%Z, 0%Z))].
 Proof. exact boundary_clear_needed. Qed.
 
+(* THE COLLAPSE TESTS ARE THE SOURCE'S: DCTree<2>::leafsAreManifold is re-read from dc_tree2.cpp on every run (which
+   child's which corner is compared with which corners of the parent), and the corner table of cornersAreManifold too *)
+Theorem C10_collapse_tests_from_source :
+  (forall (cs : Z -> QuadTree.qtree) (k : Z -> bool),
+     LeafsManifold_gen.leafs_manifold2_gen cs k =
+     QuadTree.leafs_manifold (cs 0%Z) (cs 1%Z) (cs 2%Z) (cs 3%Z) (k 0%Z) (k 1%Z) (k 2%Z) (k 3%Z)) /\
+  (forall m, (0 <= m < 16)%Z ->
+     QuadTree.corners_manifold m = nth (Z.to_nat m) ManifoldTables_gen.gen_corner2 false).
+Proof. split; [exact LeafsAgree.leafs_manifold2_gen_eq | exact LeafsAgree.corners_manifold2_table]. Qed.
+
 Print Assumptions C10_segments_preserved.
 Print Assumptions C10_polylines_are_paths.
 Print Assumptions C10_loops_are_closed.
@@ -273,3 +284,4 @@ Print Assumptions C10_adaptive_checkers_sound.
 Print Assumptions C10_adaptive_example.
 Print Assumptions C10_collapse_tests_needed.
 Print Assumptions C10_boundary_clear_needed.
+Print Assumptions C10_collapse_tests_from_source.
